@@ -294,3 +294,20 @@ pub fn backup_bytes(txn: &mut QueryServerReadTransaction<'_>) -> Result<Vec<u8>,
         .backup(&mut out, BackupCompression::NoCompression)?;
     Ok(out)
 }
+
+/// Key ids (ES256 signing keys, sorted) of the key object `uuid` as loaded in the in-memory key
+/// providers this read transaction sees. None = no such key object is loaded.
+pub fn key_object_kids(txn: &QueryServerReadTransaction<'_>, uuid: uuid::Uuid) -> Option<Vec<String>> {
+    use crate::server::keys::KeyProvidersTransaction;
+    txn.get_key_providers()
+        .get_key_object_handle(uuid)
+        .map(|ko| {
+            let mut v: Vec<String> = ko
+                .jws_es256_kid()
+                .into_iter()
+                .map(|k| k.to_string())
+                .collect();
+            v.sort();
+            v
+        })
+}
